@@ -345,6 +345,9 @@ pub struct Var {
 	pub value: String,
 	/// file kinds: pass the path relative to the cwd
 	pub relative: bool,
+	/// file kinds: pass only the file name; the file is found through the library search path
+	#[serde(default)]
+	pub via_search_path: bool,
 }
 #[derive(Serialize, Deserialize, Clone, Copy, Debug, PartialEq, Eq)]
 pub enum Format {
@@ -575,6 +578,7 @@ impl Scenario for C15Cli {
 				kind,
 				value,
 				relative: rng.chance(1, 2),
+				via_search_path: rng.chance(1, 4),
 			}
 		};
 		let n_ext = rng.below(4);
@@ -670,6 +674,7 @@ impl Scenario for C15Cli {
 			aliases: plan.world.aliases.clone(),
 		};
 		materialise(&root, &fs, &rendered);
+		let fs_for_args = fs.clone();
 		let code = plan.program(&root);
 		let main_sim = "/w/main.jsonnet";
 		let main_abs = format!("{root}{main_sim}");
@@ -686,12 +691,29 @@ impl Scenario for C15Cli {
 				format!("{root}{sim}")
 			}
 		};
+		// the effective search path as the property defines it: right-most -J first, then JSONNET_PATH
+		let mut search: Vec<String> = plan.jpaths.iter().rev().map(|(d, _)| d.clone()).collect();
+		search.extend(plan.env_paths.iter().cloned());
+		let file_arg = |v: &Var| {
+			let dir = parent(&v.value);
+			let name = v.value.rsplit('/').next().unwrap_or("").to_owned();
+			// a bare file name: found in the cwd first, then through the search path. Only used when
+			// that lookup denotes the very file we mean (first hit), otherwise a plain path is passed.
+			let mut order: Vec<String> = vec![plan.cwd.clone()];
+			order.extend(search.iter().cloned());
+			let first_hit = order.iter().find(|d| fs_for_args.files.contains_key(&format!("{}/{name}", if d.as_str() == "/" { "" } else { d.as_str() })) || fs_for_args.aliases.contains_key(&format!("{}/{name}", if d.as_str() == "/" { "" } else { d.as_str() })));
+			if v.via_search_path && first_hit.is_some_and(|d| *d == dir) {
+				name
+			} else {
+				path_arg(&v.value, v.relative)
+			}
+		};
 		for v in &plan.ext {
 			let (flag, val) = match v.kind {
 				VarKind::Str => ("--ext-str", v.value.clone()),
 				VarKind::Code => ("--ext-code", v.value.clone()),
-				VarKind::StrFile => ("--ext-str-file", path_arg(&v.value, v.relative)),
-				VarKind::CodeFile => ("--ext-code-file", path_arg(&v.value, v.relative)),
+				VarKind::StrFile => ("--ext-str-file", file_arg(v)),
+				VarKind::CodeFile => ("--ext-code-file", file_arg(v)),
 			};
 			args.push(flag.to_owned());
 			args.push(format!("{}={val}", v.name));
@@ -700,8 +722,8 @@ impl Scenario for C15Cli {
 			let (flag, val) = match v.kind {
 				VarKind::Str => ("--tla-str", v.value.clone()),
 				VarKind::Code => ("--tla-code", v.value.clone()),
-				VarKind::StrFile => ("--tla-str-file", path_arg(&v.value, v.relative)),
-				VarKind::CodeFile => ("--tla-code-file", path_arg(&v.value, v.relative)),
+				VarKind::StrFile => ("--tla-str-file", file_arg(v)),
+				VarKind::CodeFile => ("--tla-code-file", file_arg(v)),
 			};
 			args.push(flag.to_owned());
 			args.push(format!("{}={val}", v.name));
